@@ -423,6 +423,10 @@ func (t *tr) tailCall(c *ast.CallExpr, callee *fnInfo, recv ast.Expr, e *env) []
 		}
 	}
 	call := callee.leanName + sp(args)
+	if strings.Join(pat, ",") == strings.Join(vals, ",") {
+		// the callee's results and outputs are exactly the caller's: a plain tail call
+		return []string{call}
+	}
 	p := "()"
 	if len(pat) == 1 {
 		p = pat[0]
